@@ -234,13 +234,9 @@ fn race_body(r: &Race) -> Result<(), String> {
         let e = CLOCK.fetch_add(1, Ordering::SeqCst);
         (b, e, res)
     });
-    if cfg!(feature = "inproc") {
-        // no system call separates the spawn from the first receive call in this build: give the
-        // scheduler the choice of who goes first (default: the sender; one deviation: the receiver)
-        unsafe {
-            libc::sched_yield();
-        }
-    }
+    // no system call separates the spawn from the first receive call in the in-process build: give
+    // the scheduler the choice of who goes first (default: the sender; one deviation: the receiver)
+    e1::inproc_point();
     let sends = matches!(act, Pre::Small | Pre::Big);
     let mut delivered = 0;
     let mut calls = vec![r.first];
